@@ -661,6 +661,56 @@ T = {
     needs="a reward pool whose share denom has no committed amount — the lending vault (pool 32767) before anybody has bonded —, a supported reward denom, and anybody's MsgAddExternalIncentive for it: every block of the period panics in masterchef's end-blocker",
     caught_by="C18.block_ok in scenario c18-external-incentive-before-first-bond-fresh-vault",
     history="MISSED at first (every world is seeded with two deposits into the vault, and incentives were funded for amm pools only); a world seeded without the vault deposits and a directed scenario added; caught since"),
+ "C02-7": dict(
+    change="x/amm/types/pool_join_pool.go JoinPool: TotalShares is increased by the fee-reduced share count before the weight-balance-bonus branch reassigns the returned count",
+    needs="a single-asset join into an oracle pool further from its target weights than the threshold, with the scarce asset (the join earns the bonus)",
+    caught_by="C02.shares_agree in hist mode",
+    history="caught at first run"),
+ "C04-7": dict(
+    change="x/amm/keeper/keeper_swap_exact_amount_in.go InternalSwapExactAmountIn: the minimum-out check counts the nominal weight-recovery bonus (same site and mechanism as C04-2)",
+    needs="an oracle pool off its target weights, a recovering swap, a rebalance treasury that cannot pay the bonus, a minimum between the two outputs",
+    caught_by="C04.exact_in_min_out in mode c04",
+    history="caught at first run"),
+ "C07-7": dict(
+    change="x/stablestake/keeper/msg_server_unbond.go Unbond: the stated value is reduced by the number of shares burned instead of by the amount paid out",
+    needs="a redemption rate above 1 (a loan has accrued interest), an unbond, then another redemption: it is paid at an inflated rate out of the other lenders' cash",
+    caught_by="C07.redeem_fair in mode c07",
+    history="caught at first run only as a broken correspondence without a failing input (the rate rises, so none of the clauses about a falling rate fired); clause redeem_fair added (shares are redeemed at no more than their share of cash + outstanding loans, whatever the vault states); caught with a failing input since"),
+ "C09-7": dict(
+    change="x/perpetual/keeper/hooks_amm.go: the amm hooks check the pool balance against the LONG side's custody only (a local helper instead of CheckLowPoolHealthAndMinimumCustody)",
+    needs="open short positions (custody in the base currency) and a liquidity exit that takes the pool's base-currency holdings below that custody while the pool-health threshold still passes",
+    caught_by="NOT CAUGHT",
+    history="MISSED, and still missed: in the worlds of the harness an exit large enough to dip under the shorts' custody also trips the pool-health threshold, which the changed helper still applies (scenario c09-liquidity-exit-against-short-custody reaches the refusal, not the gap); a world with a lower PoolOpenThreshold was not built"),
+ "C10-7": dict(
+    change="x/leveragelp/keeper/msg_server_close_positions.go ClosePositions: each amm pool is read once per request; later stop-loss entries are judged on the LP price from before the earlier closes of the same request",
+    needs="one MsgClosePositions naming two positions of one pool: the earlier one really closes (the LP price rises), the later one has a stop loss between the stale and the true price",
+    caught_by="NOT CAUGHT",
+    history="MISSED, and still missed: mode c10 predicts prices once per request; judging the second entry needs the price after the first entry's close (a sequential prediction inside one request), which was not built. The same class of change in the begin-block sweep (C10-5) is caught by the directed sweep pairs"),
+ "C12-7": dict(
+    change="x/amm/keeper/pool_share.go MintPoolShareToAccount: no new lock-up entry when one with a later unlock time exists already",
+    needs="the same address joining an oracle pool twice at the same block time (or a leveraged open followed by a consolidating open), then exiting the second deposit within the hour",
+    caught_by="C12.lock_recorded in hist mode (same-block double joins)",
+    history="caught at first run"),
+ "C14-7": dict(
+    change="x/commitment/genesis.go ExportGenesis: vesting entries whose schedule has elapsed are dropped from the export (the existing clean-ups drop fully CLAIMED entries)",
+    needs="an entry whose schedule has elapsed and that is not fully claimed, and a restart from the exported state",
+    caught_by="C14.complete, C14.conservation in mode c14 (genesis round trips of the commitment module between the operations)",
+    history="MISSED at first (mode c14 never exported and re-imported); round trips added; caught since"),
+ "C15-7": dict(
+    change="x/commitment/keeper/msg_server_cancel_vest.go CancelVest: the cancellable amount of a schedule is capped by its total instead of by its unreleased remainder",
+    needs="vest, claim part, then cancel more than the remainder (at most the total): Eden is handed back for ELYS already minted, and vesting it again mints ELYS again",
+    caught_by="C15.native_released_le_eden_given_up in cm-focused histories (cancels of more than is left); C14.complete / C14.conservation caught it at first contact",
+    history="MISSED by C15 at first (every mint happened in a ClaimVesting, a permitted site; cancels never asked for more than the remainder + 1); clause added (what users' claims have released is covered by the Eden vested and not handed back) and over-large cancels generated; caught since"),
+ "C17-7": dict(
+    change="x/oracle/keeper/msg_server_create_asset_info.go CreateAssetInfo: the 'already listed?' lookup is made under the lower-cased denom, the write under the denom as sent",
+    needs="a listed denom with upper-case characters — every IBC voucher on a live chain —: anybody's MsgCreateAssetInfo overwrites the listing",
+    caught_by="C17.existing_object_overwritten in mode c17 (a listed voucher among the targets)",
+    history="MISSED at first (the listed objects the permissionless create messages were aimed at all had lower-case denoms); a listed IBC voucher added; caught since"),
+ "C19-7": dict(
+    change="x/masterchef/keeper/abci.go ProcessExternalRewardsDistribution: incentives are grouped in a map by reward denom and the map is ranged over",
+    needs="two incentives of different reward denoms on one pool becoming active in the same block: the order of the pool's ExternalRewardDenoms follows map iteration",
+    caught_by="C19.ranges_as_expected (regenerated table of map ranges) — reported with no-failing-input-found",
+    history="caught at first run as a broken proof obligation; the quick replicas did not diverge"),
 }
 
 root = os.path.join(os.path.dirname(os.path.dirname(os.path.abspath(__file__))), "seeded")
